@@ -575,8 +575,10 @@ def initial_conditions(profile, z0, dbm_particle, yk, q, q_type, de,
         Q = m_dot / rho_p
         nb0 = Q / (np.pi * de**3 / 6.)
         
-        # Get the initial particle mass(es)
-        m0 = m_dot / nb0 * mf
+        # Get the initial particle mass(es) from the particle volume and 
+        # density (equal to m_dot / nb0, but defined also when the flux, 
+        # and hence nb0, is zero)
+        m0 = rho_p * (np.pi * de**3 / 6.) * mf
     
     # Return the standard variables
     return (m0, T0, nb0, P, Sa, Ta)
